@@ -49,7 +49,7 @@ const MENU: [&str; 18] = [
 /// the first `MENU_CORE` lines form the menu of the big families
 const MENU_CORE: usize = 15;
 /// leaves of the `special-files` families: multi-byte text, CR LF line ends, blank-only files, a file ending in CR
-const SPECIAL_LEAVES: [&str; 6] = ["é€😀 z\n", "a\r\nb\r\n", " \n \n", "\n\n", "a\r", "é\\endinput €\n😀\n"];
+const SPECIAL_LEAVES: [&str; 9] = ["é€😀 z\n", "a\r\nb\r\n", " \n \n", "\n\n", "a\r", "é\\endinput €\n😀\n", "{a} b\nc\nd\n", "{a\nb} c\nd", "{}\nb\n"];
 const LEAVES: [&str; 5] = ["k", "k\n", "", "p\nq\n", "u\\endinput v\nw\n"];
 
 #[derive(Clone, Debug, PartialEq)]
@@ -236,6 +236,9 @@ fn judge_tree(idx: u64, case: &TreeCase, acc: &mut Acc, inline_oracle: bool) {
     if want.backed_token_across_push {
         acc.count("backed_token_across_push");
     }
+    if want.endinput_before_last_line {
+        acc.count("endinput_before_last_line_of_its_file");
+    }
     if want.max_open_files >= 3 {
         acc.count("nesting_ge_2");
     }
@@ -367,7 +370,9 @@ fn chain_case(n: usize, shape: usize) -> TreeCase {
 /// fn..fq have the unmatched `}` on their last line (seeded regression C19-h): the rest of the line is
 /// dropped (§486) and the stream is afterwards as after any other last line
 /// fr: 2-, 3- and 4-byte characters in front of an unmatched `}`; fs: blank lines only; ft: CR LF line ends
-const STREAM_FILES: [(&str, &str); 20] = [
+/// fu..fz: a complete brace group that is NOT at the end of the file (seeded regression C19-j): the \read
+/// stops at the end of that line / of the line that closes the group, and the rest of the file remains
+const STREAM_FILES: [(&str, &str); 26] = [
     ("fa", ""),
     ("fb", "a"),
     ("fc", "a\n"),
@@ -387,9 +392,15 @@ const STREAM_FILES: [(&str, &str); 20] = [
     ("fr", "é€😀}z\nq"),
     ("fs", " \n \n"),
     ("ft", "a\r\nb\r\n"),
+    ("fu", "{a} b\nc\nd\n"),
+    ("fv", "{a\nb} c\nd\n"),
+    ("fw", "{a}{b} c\nd"),
+    ("fx", "{{a}}b\nc\n"),
+    ("fy", "{a}\nb\n"),
+    ("fz", "{}\nb"),
     ("fh", "{a"),
 ];
-const XS_FILES: usize = 19;
+const XS_FILES: usize = 25;
 const TERMINAL: [&str; 14] = ["p", "q{", "r}", "s", "t}u", "v", "w", "p", "q{", "r}", "s", "t}u", "v", "w"];
 
 #[derive(Clone, Copy, Debug, PartialEq)]
@@ -635,6 +646,15 @@ fn check_history(idx: u64, h: &[Act], obs: &[i64], with_drain: bool, no_elc: boo
     }
     if mt.empty_read {
         acc.count("read_of_line_without_tokens");
+    }
+    if mt.m.group_line_then_more_lines {
+        acc.count("read_line_with_balanced_group_followed_by_more_lines");
+    }
+    if mt.m.multiline_group_then_more_lines {
+        acc.count("read_multiline_group_closes_before_last_line");
+    }
+    if mt.m.unmatched_brace_then_more_lines {
+        acc.count("read_unmatched_brace_before_last_line");
     }
     for a in h {
         if let Act::Open(_, f) = a {
@@ -1049,7 +1069,8 @@ fn main() {
             continue;
         }
         let t = std::time::Instant::now();
-        let depth = if no_elc { ctx.pick(5usize, 7usize) } else { ctx.pick(6usize, 8usize) };
+        // 26 files x 2 (3) streams: 66 (95) actions; the depth is what keeps quick near 20 s and thorough near 10 min
+        let depth = if no_elc { ctx.pick(4usize, 5usize) } else { ctx.pick(5usize, 6usize) };
         let deadline = std::time::Instant::now() + std::time::Duration::from_secs_f64(ctx.remaining_s().min(ctx.pick(60.0, 3000.0)));
         let init = Fp { drain: "<initial>".into(), terminal_pos: 0 };
         let a = &acts;
@@ -1092,6 +1113,10 @@ fn main() {
     ctx.require("stream_number_out_of_range", "a stream number outside 0..15 was used");
     ctx.require("two_streams_open", "two streams are open at the same time");
     for (c, m) in [
+        ("read_line_with_balanced_group_followed_by_more_lines", "a \\read stops after a line that holds a complete group while the file has further lines"),
+        ("read_multiline_group_closes_before_last_line", "a \\read spans several lines and the group closes before the last line of the file"),
+        ("read_unmatched_brace_before_last_line", "an unmatched } aborts a line that is not the last one"),
+        ("endinput_before_last_line_of_its_file", "\\endinput is executed in a file that still has further lines"),
         ("stream_file_with_multibyte_text", "a read stream is opened on a file with 2-, 3- and 4-byte characters"),
         ("stream_file_with_crlf", "a read stream is opened on a file with CR LF line ends"),
         ("stream_file_blank_only", "a read stream is opened on a file of blank lines only"),
